@@ -48,12 +48,27 @@ func c02hex(b []byte) string {
 
 // c02str prints an ASCII string as (s "...") when it is safe to do so, else as bytes.
 func c02str(t string) string {
+	if len(t) > 4000 {
+		return c02hex([]byte(t))
+	}
 	for i := 0; i < len(t); i++ {
-		if t[i] < 32 || t[i] > 126 || t[i] == '"' {
+		if t[i] < 32 || t[i] > 126 {
 			return c02hex([]byte(t))
 		}
 	}
-	return `(s "` + t + `")`
+	return `(s "` + strings.ReplaceAll(t, `"`, `""`) + `")`
+}
+
+// c02rel prints an answer relative to a reference answer: SErr, SSame or SDiff.
+func c02rel(o, ref string) string {
+	switch {
+	case o == "None":
+		return "SErr"
+	case o == ref:
+		return "SSame"
+	default:
+		return "(SDiff " + strings.TrimSuffix(strings.TrimPrefix(o, "(Some "), ")") + ")"
+	}
 }
 
 func c02z(i int64) string { return "(" + strconv.FormatInt(i, 10) + ")%Z" }
@@ -93,7 +108,7 @@ func c02obs(mi *core.MetaInfo, err error) string {
 		return "None"
 	}
 	return fmt.Sprintf("(Some (mkmobs %s %s %s %s %s %s %s))", c02z(mi.Length()), c02z(mi.PieceLength()),
-		c02us(sums), c02str(mi.Digest().Hex()), c02hex(mi.InfoHash().Bytes()), c02zs(gpl), c02hex(ser))
+		c02us(sums), c02str(mi.Digest().Hex()), c02hex(mi.InfoHash().Bytes()), c02zs(gpl), c02str(string(ser)))
 }
 
 // ---- scripted reader ----------------------------------------------------------------------
@@ -214,7 +229,8 @@ func c02emitGen(ctx *hlib.Ctx, g *c02gen, kind string) {
 		cs[i] = c02hex(c)
 	}
 	in := fmt.Sprintf("(CGen %s %s %s %s)", c02str(d.Hex()), c02z(g.pl), hlib.List(cs), hlib.B(g.fail))
-	ob := fmt.Sprintf("(OGen %s %s %s)", c02obs(ms, errS), c02obs(mb, errB), rt)
+	ref := c02obs(mb, errB)
+	ob := fmt.Sprintf("(OGen %s %s %s)", c02rel(c02obs(ms, errS), ref), ref, c02rel(rt, ref))
 	nt := errB == nil && len(g.data) > 0 && !g.fail
 	np := 0
 	if mb != nil {
@@ -228,7 +244,7 @@ func c02emitGen(ctx *hlib.Ctx, g *c02gen, kind string) {
 
 func c02emitParse(ctx *hlib.Ctx, raw []byte, kind string) {
 	mi, err := core.DeserializeMetaInfo(raw)
-	in := fmt.Sprintf("(CParse %s)", c02hex(raw))
+	in := fmt.Sprintf("(CParse %s)", c02str(string(raw)))
 	ob := fmt.Sprintf("(OParse %s)", c02obs(mi, err))
 	ctx.Emit(hlib.Case{Coq: "mkcase " + in + " " + ob, NT: err == nil, Kind: kind,
 		Hist:   []string{"parse:" + map[bool]string{true: "ok", false: "error"}[err == nil]},
